@@ -18,7 +18,7 @@ lists.  For the `read` alphabets every pipeline is also READ and compared with t
 (fresh real filters built from the spec's records, one after the other, over a fresh source).  All spellings the docstrings
 allow for one call (positional / keyword, int / list / tuple / range / generator / several positionals, seed= / seeds= / n=,
 defaults, empty lists) are separate calls that the spec maps to the same meaning."""
-import collections, itertools, json, random, re
+import collections, hashlib, io, itertools, json, os, random, re
 from concurrent.futures import ThreadPoolExecutor
 from .. import tlc, tracecheck
 
@@ -566,11 +566,11 @@ def runs_of(ctx):
         add("forms-1src", "S1", "AllForms", 1, 12)
         add("forms-3src", "S3", "AllForms", 1, 12)
         add("forms-empty", "S0", "AllForms", 1, 12)
-        add("forms-sim", "S3", "AllForms", 4, 12, sim=dict(num=40), depth=5)
-        add("triples-sim", "S2", "Canon", 3, 12, sim=dict(num=40), depth=4)
-        add("seq-sim", "S3", "SeqDeep", 6, 8, sim=dict(num=25), depth=7)
-        add("multi-sim", "S3", "MultiDeep", 4, 24, sim=dict(num=20), depth=5)
-        add("read-sim", "SL", "ReadCalls", 3, 8, sim=dict(num=10), depth=4, read=True)
+        add("forms-sim", "S3", "AllForms", 4, 12, sim=dict(num=30), depth=5)
+        add("triples-sim", "S2", "Canon", 3, 12, sim=dict(num=100), depth=4)
+        add("seq-sim", "S3", "SeqDeep", 6, 8, sim=dict(num=80), depth=7)
+        add("multi-sim", "S3", "MultiDeep", 4, 24, sim=dict(num=60), depth=5)
+        add("read-sim", "SL", "ReadCalls", 3, 8, sim=dict(num=30), depth=4, read=True)
     return R
 
 
@@ -614,14 +614,24 @@ def run(ctx):
         name, sub, sim, depth, cov, guard = job
         cfg = tracecheck._cfg("EnvAlgebra.cfg", sub, ctx.scratch, "ea_%s.cfg" % name)
         kw = dict(simulate=sim, depth=depth, seed=ctx.seed) if sim else {}
-        return name, tlc.run("MC_EnvAlgebra", cfg, ctx.scratch, workers=1 if guard else (2 if ctx.quick else 4), timeout=3000, heap="6g", coverage=cov, **kw)
+        r = tlc.run("MC_EnvAlgebra", cfg, ctx.scratch, workers=1 if guard else (2 if ctx.quick else 4), timeout=3000, heap="4g", coverage=cov, **kw)
+        if cov and not all(a in r.coverage for a in ACTIONS): _coverage(r)
+        # the histories go to a file (one per line, duplicates of simulation runs dropped): nothing big stays in memory
+        path = os.path.join(ctx.scratch, "ea_%s.hist" % name); seen = set(); k = 0
+        with open(path, "w") as f:
+            for ln in io.StringIO(r.out):
+                if ln.startswith('"H{'):
+                    line = json.loads(ln)[1:]; d = hashlib.md5(line.encode()).digest()
+                    if d not in seen: seen.add(d); f.write(line + "\n"); k += 1
+        r.json = []; r.out = ""
+        return name, r, path, k
     jobs = [(r["name"], r["sub"], r["sim"], r["depth"], r["cov"], False) for r in RUNS]
     for g, _, off, _ in GUARDS:
         sub = {'Variant = "ok"': 'Variant = "%s"' % g, "Calls <- AllForms": "Calls <- GuardCalls", "Later <- AllForms": "Later <- GuardCalls",
                "MaxOps = 1": "MaxOps = 3", "MaxLen = 12": "MaxLen = 8"}
         sub.update({"INVARIANT %s\n" % law: "" for law in off})
         jobs.append(("guard-" + g, sub, None, None, False, True))
-    ex = ThreadPoolExecutor(max_workers=4 if ctx.quick else 3)
+    ex = ThreadPoolExecutor(max_workers=4 if ctx.quick else 2)
     futures = {job[0]: ex.submit(tlc_job, job) for job in jobs}       # the replay below runs while later TLC runs are still busy
     need = {"binary", "sparse", "dense", "shuffle", "sort", "riffle", "cycle", "params", "take", "slice", "reservoir", "scale", "impute", "where", "noise",
             "flatten", "materialize", "grounded", "repr", "batch", "unbatch", "chunk", "logged", "ope", "cache", "filter", "from_linear", "from_bandit",
@@ -629,32 +639,28 @@ def run(ctx):
             "len", "iter", "index", "str", "reversed"}
     ops_seen = collections.Counter(); forms_seen = set(); nhist = {}; total = 0; selftest = False
     for run_ in RUNS:
-        r = futures[run_["name"]].result()[1]
-        if run_["cov"] and not all(a in r.coverage for a in ACTIONS): _coverage(r)
+        _, r, path, nh = futures[run_["name"]].result()
         ctx.add_tlc("EnvAlgebra " + run_["name"], r, required_actions=ACTIONS if run_["cov"] else ())
         for v in r.violations:
             ctx.violation("spec:%s" % (v["name"] or v["kind"]), "EnvAlgebra.tla (%s) itself violates %s" % (run_["name"], v["name"] or v["kind"]), v["trace"][:60])
-        seen = {}
-        for j in r.json:
-            if isinstance(j, dict) and "steps" in j and "start" in j: seen.setdefault(json.dumps(j["steps"], sort_keys=True), j)
-        hs = [seen[k] for k in sorted(seen)]
-        r.json = None; r.out = ""
-        if len(hs) < run_["minimum"]: raise RuntimeError("EnvAlgebra %s produced only %d histories" % (run_["name"], len(hs)))
-        nhist[run_["name"]] = len(hs)
+        if nh < run_["minimum"]: raise RuntimeError("EnvAlgebra %s produced only %d histories" % (run_["name"], nh))
+        nhist[run_["name"]] = nh
         if not run_["sim"]: ctx.exhaustive = True if ctx.exhaustive is None else ctx.exhaustive
-        if run_["name"] == "forms-2src": selftest = self_test(hs, L)
+        if run_["name"] == "forms-2src": selftest = self_test([json.loads(l) for l in open(path)], L)
         # ---- every history on the real objects ----
-        for h in hs:
+        k = 0
+        for line in open(path):
+            h = json.loads(line); k += 1
             for s in h["steps"]:
                 ops_seen[s["c"]["op"]] += 1; forms_seen.add((s["c"]["op"], s["c"]["f"], s["c"]["vf"]))
             total += 1
-            ctx.case((run_["name"], show(h)))
+            ctx.case(run_["name"] + ":" + hashlib.md5(line.encode()).hexdigest()[:16])
             bad = replay(h, L, read=run_["read"], read_sources=run_["name"].startswith("forms-") and not run_["sim"])
             for sig, what, step in (bad or []):
                 ctx.violation(sig, what + "   history: " + show(h), dict(run=run_["name"], start=h["start"], steps=[dict(c=s["c"], r=s["r"], q=s["q"]) for s in h["steps"]], failing_step=step))
-        if hs:
-            h = hs[len(hs) // 2]
-            ctx.sample(dict(run=run_["name"], history=show(h), last_result=show_pipes(spec_pipes(h["steps"][-1]["res"]))), limit=12)
+            if k == max(1, nh // 2):
+                ctx.sample(dict(run=run_["name"], history=show(h), last_result=show_pipes(spec_pipes(h["steps"][-1]["res"]))), limit=20)
+        os.remove(path)
     for g, what, _, expect in GUARDS:
         r = futures["guard-" + g].result()[1]
         ctx.add_tlc("EnvAlgebra guard " + g, r)
